@@ -66,8 +66,9 @@ postprocessing:
         prefix: ""
         suffix: " #win"
         rule_conditions:
-          - type: logsource
-            product: windows
+          - type: processing_state
+            key: index
+            val: win
   - id: pshow
     type: template
     template: "{{ query }} | applied={{ pipeline.applied_ids | sort | join(',') }}"
